@@ -695,9 +695,13 @@ pub fn families(id: &str, quick: bool) -> Vec<Family> {
                         x.cap = 60_000;
                     }
                     f.extend(b2);
-                    f.extend(indep_family(&format!("{nm} 4 callbacks T{{5,8,11}} J{{0,6}} C<=2"), Some(bw), vec![(0, 4), (1, 3), (2, 2)],
-                        vec![(ArrSpec::Sporadic { t: 5, j: 0 }, 1u64), (ArrSpec::Sporadic { t: 8, j: 0 }, 1), (ArrSpec::Sporadic { t: 8, j: 6 }, 1), (ArrSpec::Sporadic { t: 11, j: 0 }, 2)],
-                        vec![SupplySpec::Dedicated, SupplySpec::Periodic { q: 2, p: 3 }]));
+                    let mut c4 = indep_family(&format!("{nm} 4 callbacks {{(5,0)C1,(8,6)C1,(11,0)C2}} (state cap 300k)"), Some(bw), vec![(0, 4), (1, 3), (2, 2)],
+                        vec![(ArrSpec::Sporadic { t: 5, j: 0 }, 1u64), (ArrSpec::Sporadic { t: 8, j: 6 }, 1), (ArrSpec::Sporadic { t: 11, j: 0 }, 2)],
+                        vec![SupplySpec::Dedicated]);
+                    for x in c4.iter_mut() {
+                        x.cap = 300_000;
+                    }
+                    f.extend(c4);
                     f.extend(indep_family(&format!("{nm} T{{3,4,7}} J{{0,2}} C=1"), Some(bw), vec![(0, 3), (1, 2)],
                         [3u64, 4, 7].iter().flat_map(|t| [0u64, 2].into_iter().map(move |j| (ArrSpec::Sporadic { t: *t, j }, 1u64))).collect(), sups.clone()));
                     f.extend(indep_family(&format!("{nm} T{{5,9}} J<=1 C<=2"), Some(bw), vec![(1, 2), (0, 3), (2, 1)],
